@@ -46,6 +46,7 @@ from ..lik_c06 import (
 LEVEL = "exploration"
 REL = 1e-9
 ABS = 1e-12
+SLOW_IMPLS = ("cached_int", "cached_amp", "cfit_cached")
 ACTIONS = ["Setup", "Blend", "PreBatch", "DataBatch", "DataDone", "MCBatch", "MCDone", "Combine", "ReBlend", "ValueEval", "Finish"]
 
 
@@ -62,18 +63,25 @@ class Real:
         groups = core["groups"]
         self.G = len(groups)
         self.constr_spec = core["constr"]
-        key = (impl, len(self.constr_spec), tuple((str(c["mu"]), str(c["sg"]), str(c["th"])) for c in self.constr_spec))
         constrains = None
         # constrained parameters: phases of the free `total` couplings (unchanged by a rescaling of the magnitudes)
         free_phase = ["A->R_BD.CR_BD->B.D_total_0i", "A->R_CD.BR_CD->C.D_total_0i"]
         self.constr_names = free_phase[: len(self.constr_spec)]
         if self.constr_spec:
-            gc = {}
-            for nm, c in zip(self.constr_names, self.constr_spec):
-                # mean is fixed when the configuration is made: theta - mu of the scenario is realised at point 0 only
-                gc[nm] = [float(frac(c["mu"])), float(frac(c["sg"]))]
-            constrains = {"gauss_constr": gc}
-        self.c, self.pool, self.amp = fac.config(key, opts, constrains)
+            constrains = {"gauss_constr": {nm: [float(frac(c["mu"])), float(frac(c["sg"]))] for nm, c in zip(self.constr_names, self.constr_spec)}}
+        # model options of this scenario (a ConfigLoader fixes its model objects at the first get_fcn)
+        opts = dict(opts)
+        wbs = [1.0 if (g["bgkey"] or not g["nb"]) else float(frac(g["wb"])) for g in groups]  # Model.w_bkg: decoy when the bg sample carries its weights
+        phis = [float(frac(g["phi"])) for g in groups]
+        if self.cfit:
+            opts["bg_frac"] = phis if self.G > 1 else phis[0]
+        else:
+            opts["bg_weight"] = wbs if self.G > 1 else wbs[0]
+        self.opts = opts
+        self.constrains = constrains
+        self.fac = fac
+        self.c, self.pool, self.amp = fac.new_config(opts, constrains)
+        self.keep = []
         if self.constr_spec:
             self.constr = dict(self.c.gauss_constr_dic)
             missing = [n for n in self.constr_names if n not in self.amp.vm.trainable_vars]
@@ -83,7 +91,6 @@ class Real:
             self.constr = {}
         npool = fac.pool_size
         self.samples = []
-        wb_list, phi_list = [], []
         for g in groups:
             nd, nb, nm = len(g["dw"]) * mult, g["nb"] * mult, len(g["mv"]) * mult
             jit = (lambda n: rng_uniform(rng, n, 0.7, 1.3)) if jitter else (lambda n: np.ones(n))
@@ -112,25 +119,25 @@ class Real:
                 dict(data=data, phsp=phsp, bg=bg, all_idx=d_idx + b_idx, m_idx=m_idx, w=w_all, v=(mv if g["mckey"] else np.ones(nm)),
                      phi=phi, eff_d=extra_d.get("eff_value"), eff_m=extra_m.get("eff_value"), b_d=extra_d.get("bg_value"), b_m=extra_m.get("bg_value"))
             )
-            wb_list.append(1.0 if (g["bgkey"] or not nb) else wb)  # Model.w_bkg: decoy when the bg sample carries its weights
-            phi_list.append(phi)
-        self.wb_list, self.phi_list = wb_list, phi_list
         self.with_eff = with_eff
 
-    def _set_config(self, which):
-        d = self.c.config["data"]
-        if self.cfit:
-            d["bg_frac"] = [self.phi_list[k] for k in which] if len(which) > 1 else self.phi_list[which[0]]
-        else:
-            d["bg_weight"] = [self.wb_list[k] for k in which] if len(which) > 1 else self.wb_list[which[0]]
-
     def fcn(self, batch, which=None):
-        which = list(range(self.G)) if which is None else which
-        self._set_config(which)
-        ss = [self.samples[k] for k in which]
+        """the likelihood object of the whole scenario, or (which=[k]) of one data set alone (own ConfigLoader, same parameters)"""
+        if which is None:
+            c, ss = self.c, self.samples
+        else:
+            opts = dict(self.opts)
+            for k in ("bg_frac", "bg_weight"):
+                if isinstance(opts.get(k), list):
+                    opts[k] = opts[k][which[0]]
+            c, _, amp = self.fac.new_config(opts, self.constrains)
+            amp.set_params({k: float(v) for k, v in self.amp.get_params().items()})
+            ss = [self.samples[k] for k in which]
         bgs = [s["bg"] for s in ss]
         all_data = ([s["data"] for s in ss], [s["phsp"] for s in ss], (bgs if any(b is not None for b in bgs) else None), None)
-        return quiet(self.c.get_fcn, all_data=all_data, batch=batch)
+        f = quiet(c.get_fcn, all_data=all_data, batch=batch)
+        self.keep.append((c, f))  # keep alive: tf_pwa caches by id()
+        return f
 
     def oracle_args(self, params):
         """densities from ONE unbatched amp(.) per sample at `params`"""
@@ -221,20 +228,19 @@ def run(ctx):
     # ------------------------------------------------------------------ TLC
     runs = []
     if quick:
-        runs.append(("1 data set", dict(max_data=3, max_bg=1, max_mc=2, paths=("grad",)), False))
-        runs.append(("2 data sets", dict(max_data=2, max_bg=0, max_mc=1, ngroups=2, w="WTiny", v="VTiny", constr="OneConstr", emit_max=5000), True))
-        runs.append(("1 data set, emitted", dict(max_data=3, max_bg=1, max_mc=2, w="WTiny", emit_max=5000), True))
+        runs.append(("1 data set", dict(max_data=3, max_bg=1, max_mc=2, w="WTiny", emit_max=5000), True))
+        runs.append(("2 data sets", dict(max_data=2, max_bg=0, max_mc=1, ngroups=2, w="WTiny", v="VTiny", constr="OneConstr", emit_max=5000), False))
     else:
         runs.append(("1 data set", dict(max_data=3, max_bg=2, max_mc=2, w="WFull", v="VFull", bkg="BkgFull", phi="PhiFull"), False))
         runs.append(("1 data set, 3 MC events", dict(max_data=2, max_bg=1, max_mc=3, v="VFull", gm=(1, 2, 3), scales=(1, 2), constr="OneConstr"), False))
         runs.append(("2 data sets", dict(max_data=2, max_bg=1, max_mc=1, ngroups=2, w="WTiny", v="VTiny", constr="TwoConstr"), False))
         runs.append(("2 data sets, emitted", dict(max_data=2, max_bg=0, max_mc=1, ngroups=2, w="WTiny", v="VTiny", constr="OneConstr", emit_max=5000), True))
-        runs.append(("1 data set, emitted", dict(max_data=3, max_bg=1, max_mc=2, paths=("grad", "value"), emit_max=20000), True))
+        runs.append(("1 data set, emitted", dict(max_data=3, max_bg=1, max_mc=2, emit_max=20000), True))
     emitted = []
     tables = None
     from concurrent.futures import ThreadPoolExecutor
 
-    npar = 3
+    npar = 1 if quick else 2
     def one(i):
         label, kw, cov = runs[i]
         cfg = lik_cfg(os.path.join(wdir, "lik_%d.cfg" % i), **kw, **vkw)
@@ -283,41 +289,7 @@ def run(ctx):
     ctx.part("oracle_validation", scenarios=len(emitted), max_rel_dev=dev)
     ctx.cov["traces_validated_against_impl"] = 0
 
-    # ---------------------------------------------------------------- replay
-    # stratified choice among the TLC scenarios: every spec kind x feature set
-    by_stratum = {}
-    for c in emitted:
-        core = c["core"]
-        key = (core["kind"], tuple(features(core)), tuple(len(g["dw"]) + g["nb"] for g in core["groups"]))
-        by_stratum.setdefault(key, []).append(c)
-    strata = sorted(by_stratum)
-    per = 1 if quick else 4
-    chosen = []
-    for k in strata:
-        lst = by_stratum[k]
-        rng.shuffle(lst)
-        chosen += lst[:per]
-    rng.shuffle(chosen)
-    # every spec kind maps to one or more implementation kinds; rotate through them
-    budget = 75 if quick else 1100
-    if len(chosen) > budget:
-        # keep all kinds represented
-        chosen = sorted(chosen, key=lambda c: (c["core"]["kind"]))
-        step = len(chosen) / budget
-        chosen = [chosen[int(i * step)] for i in range(budget)]
-    ctx.part("replay", strata=len(strata), chosen=len(chosen))
-    stats = {"max_rel_dev": 0.0, "clip_skipped": 0, "scenarios": 0, "evaluations": 0, "scaled": 0, "ext_scaled_changed": 0, "sum_of_parts": 0}
-    rot = {}
-    for ci, c in enumerate(chosen):
-        core = c["core"]
-        impls = IMPLS_OF_SPEC[core["kind"]]
-        n = rot.get(core["kind"], 0)
-        rot[core["kind"]] = n + 1
-        impl = impls[n % len(impls)]
-        mult = 1 if (quick or ci % 5) else 4
-        with_eff = not (impl in ("cfit_cached", "simple_cfit") and (n // len(impls)) % 2 == 0)
-        replay_core(ctx, fac, core, impl, rng, c["maxn"], mult, with_eff, variants, stats)
-    ctx.part("replay", **stats)
+    stats = replay_all(ctx, fac, emitted, rng, quick, variants)
     ctx.cov["traces_validated_against_impl"] = stats["scenarios"]
     ctx.cov["rule"] = (
         "TLC enumerates every scenario (likelihood model x data/background/MC sizes x weight patterns incl. negative x background-weight mode x "
@@ -336,11 +308,66 @@ def run(ctx):
     ctx.assume("the legacy inject_mc model is not claimed")
 
 
+def replay_all(ctx, fac, emitted, rng, quick, variants):
+    # ---------------------------------------------------------------- replay
+    # stratified choice among the TLC scenarios: every spec kind x feature set
+    by_stratum = {}
+    for c in emitted:
+        core = c["core"]
+        key = (core["kind"], tuple(features(core)))
+        by_stratum.setdefault(key, []).append(c)
+    strata = sorted(by_stratum)
+    per = 1 if quick else 6
+    budget = 30 if quick else 170
+
+    def size(c):
+        return sum(len(g["dw"]) + g["nb"] + len(g["mv"]) for g in c["core"]["groups"])
+
+    chosen = []
+    for k in strata:
+        lst = by_stratum[k]
+        rng.shuffle(lst)
+        lst.sort(key=size, reverse=True)  # the largest samples first: they have ragged batches
+        chosen += lst[:1] + rng.sample(lst[1:], min(per - 1, len(lst) - 1))
+    # the cfit_cached kind has only a cache-building implementation: few scenarios
+    cc = [c for c in chosen if c["core"]["kind"] == "cfit_cached"]
+    chosen = [c for c in chosen if c["core"]["kind"] != "cfit_cached"]
+    ncc = 2 if quick else 8
+    cc = cc[:: max(1, len(cc) // ncc)][:ncc]
+    if len(chosen) > budget - len(cc):
+        # thin evenly, keeping every kind represented
+        chosen.sort(key=lambda c: (c["core"]["kind"], features(c["core"])))
+        step = len(chosen) / (budget - len(cc))
+        chosen = [chosen[int(i * step)] for i in range(budget - len(cc))]
+    chosen += cc
+    rng.shuffle(chosen)
+    ctx.part("replay", strata=len(strata), chosen=len(chosen))
+    stats = {"max_rel_dev": 0.0, "clip_skipped": 0, "scenarios": 0, "evaluations": 0, "scaled": 0, "ext_scaled_changed": 0, "sum_of_parts": 0}
+    rot = {}
+    for ci, c in enumerate(chosen):
+        core = c["core"]
+        # implementation kinds of this spec kind; those that build caches (tf.function tracing per batch,
+        # 10-30 s per scenario) take every 7th scenario only
+        impls = []
+        for i in IMPLS_OF_SPEC[core["kind"]]:
+            impls += [i] if i in SLOW_IMPLS else [i] * 6
+        n = rot.get(core["kind"], 0)
+        rot[core["kind"]] = n + 1
+        impl = impls[(n * 5 + 6) % len(impls)] if len(set(impls)) > 1 else impls[0]
+        mult = 1 if (quick or ci % 5 or impl in SLOW_IMPLS) else 4
+        k = rot.get(("impl", impl), 0)
+        rot[("impl", impl)] = k + 1
+        with_eff = k % 2 == 0  # cfit family: alternately with and without an efficiency function
+        replay_core(ctx, fac, core, impl, rng, c["maxn"], mult, with_eff, variants, stats, quick)
+    ctx.part("replay", **stats)
+    return stats
+
+
 def known_key(impl, observer, kind_of_failure):
     return "%s:%s:%s" % (impl, observer, kind_of_failure)
 
 
-def replay_core(ctx, fac, core, impl, rng, maxn, mult, with_eff, variants, stats):
+def replay_core(ctx, fac, core, impl, rng, maxn, mult, with_eff, variants, stats, quick=False):
     spec_kind = IMPL_KINDS[impl][0]
     try:
         real = Real(fac, core, impl, rng, mult=mult, with_eff=with_eff, jitter=(mult > 1))
@@ -349,14 +376,17 @@ def replay_core(ctx, fac, core, impl, rng, maxn, mult, with_eff, variants, stats
     amp = real.amp
     p0 = {k: float(v) for k, v in amp.get_params().items()}
     free = list(amp.vm.trainable_vars)
-    points = [p0]
     p1 = dict(p0)
     for n in free:
         p1[n] = p0[n] + rng.gauss(0, 0.3)
-    points.append(p1)
+    points = [p1] if quick else [p0, p1]
     nmax = maxn * mult
-    batches = sorted(set(list(range(1, maxn + 2)) if mult == 1 else [1, mult * 2 - 1, mult * 2, nmax - 1, nmax, nmax + 1]))
-    batches = [b for b in batches if b >= 1]
+    if impl in SLOW_IMPLS:
+        batches = sorted(set([2, maxn + 1])) if maxn > 2 else [1, maxn + 1]
+    elif mult == 1:
+        batches = list(range(1, maxn + 2))
+    else:
+        batches = sorted(set([3, mult * 2 - 1, mult * 2, nmax - 1, nmax, nmax + 1]))
     stats["scenarios"] += 1
     sample_done = False
     fcns = {}
@@ -385,6 +415,8 @@ def replay_core(ctx, fac, core, impl, rng, maxn, mult, with_eff, variants, stats
                 continue
             got = {}
             for obs in ("call", "nll_grad"):
+                if obs == "call" and b not in (batches[0], batches[-1]):
+                    continue  # FCN.__call__ is not batched; observed through the first and the last FCN only
                 try:
                     got[obs] = float(quiet(fcn, p)) if obs == "call" else float(quiet(fcn.nll_grad, p)[0])
                 except Exception as e:  # noqa: BLE001
@@ -410,7 +442,7 @@ def replay_core(ctx, fac, core, impl, rng, maxn, mult, with_eff, variants, stats
                         key = "simple_cfit:eff_value_ignored_on_data"
                 ctx.violation(key, {"got": got[obs], "definition": exp, "rel_dev": dev, "core": core, "batch": b, "mult": mult, "point": pi, "with_eff": with_eff,
                                     "weights": [g["w"].tolist() for g in groups]})
-            if not sample_done and len(got) == 2:
+            if not sample_done and len(got) == 2 and b == batches[-1]:
                 ctx.sample({"impl_kind": impl, "scenario": core, "batch": b, "events_per_abstract_event": mult, "fcn": got["call"], "nll_grad[0]": got["nll_grad"], "definition": exp})
                 sample_done = True
         # ---- rescaling of all `total` couplings (largest batch size only)
